@@ -245,9 +245,82 @@ def jit_method_family(cases):
   return out
 
 
+def state_family(cases):
+  """setup-style modules whose counter (mutable collection) lives `depth` levels below the module that carries the lifted helper method;
+  the sub-modules are used in plain code before and after the lifted call, so their scopes are bound before it"""
+  import flax.linen as nn
+  import numpy as np
+  out = []
+  for c in cases:
+    try:
+      class Counter(nn.Module):
+        @nn.compact
+        def __call__(self, x):
+          n = self.variable('state', 'n', lambda: jnp.zeros((), jnp.float32))
+          n.value = n.value + 1.0
+          return x * n.value + n.value
+
+      def mid_cls(depth):
+        if depth == 0:
+          return Counter
+
+        class Mid(nn.Module):
+          def setup(self):
+            self.leaf = mid_cls(depth - 1)()
+
+          def __call__(self, x):
+            return self.leaf(x)
+        return Mid
+
+      def make(kind, c=c):
+        class Top(nn.Module):
+          def setup(self):
+            self.mid = mid_cls(c['depth'])()
+
+          def helper(self, x):
+            return self.mid(x)
+          if kind == 'remat':
+            helper = nn.remat(helper)
+          elif kind == 'jit':
+            helper = nn.jit(helper)
+          elif kind == 'map_variables':
+            helper = nn.map_variables(helper, 'state', mutable=True)
+
+          def __call__(self, x):
+            ys = []
+            for step in c['seq']:
+              if step == 'plain' or kind == 'plain':
+                ys.append(self.mid(x))
+              elif kind == 'cond':
+                ys.append(nn.cond(True, lambda m, x: m.mid(x), lambda m, x: m.mid(x) * 0.0, self, x))
+              elif kind == 'switch':
+                ys.append(nn.switch(1, [lambda m, x: m.mid(x) * 0.0, lambda m, x: m.mid(x)], self, x))
+              else:
+                ys.append(self.helper(x))
+            return ys
+        return Top()
+      x = jnp.arange(3, dtype=jnp.float32)
+      v0 = make('plain').init(jax.random.key(0), x)
+      res = {}
+      for kind in ('plain', 'remat', 'jit', 'map_variables', 'cond', 'switch'):
+        try:
+          ys, st = make(kind).apply(v0, x, mutable=['state'])
+          res[kind] = {'ys': [np.asarray(y).tolist() for y in ys], 'state': [float(l) for l in jax.tree_util.tree_leaves(st)],
+                       'paths': sorted('/'.join(str(getattr(k, 'key', k)) for k in kp) for kp, _ in jax.tree_util.tree_flatten_with_path(st)[0])}
+        except Exception as e:  # pylint: disable=broad-except
+          res[kind] = {'err': type(e).__name__, 'msg': str(e)[:160]}
+      out.append({'ok': res})
+    except Exception as e:  # pylint: disable=broad-except
+      import traceback
+      out.append({'err': type(e).__name__, 'tb': traceback.format_exc()[-600:]})
+  return out
+
+
 def main(payload):
   if payload.get('probe'):
     return probe()
+  if payload.get('state_methods') is not None:
+    return {'state_methods': state_family(payload['state_methods'])}
   if payload.get('jit_methods') is not None:
     return {'jit_methods': jit_method_family(payload['jit_methods'])}
   res = []
